@@ -82,7 +82,7 @@ def free_sim(c, syms, num, lo, hi):
 def wellformed_docs(c, num):
     from checks import flow
     syms = sorted(set(flow.PROSE + flow.COPY + flow.GENER))
-    cfg = tlc.cfg_text(constants={'Sym': set(syms), 'MaxSym': 30, 'MaxDepth': 4, 'Free': False}, invariants=['Dump'])
+    cfg = tlc.cfg_text(constants={'Sym': set(syms), 'MaxSym': 30, 'MaxDepth': 4, 'Free': False, 'Mode': 'normal'}, invariants=['Dump'])
     r = c.tlc('well-formed generator S(%d,50) for truncation/deletion' % num, 'Gen', cfg, simulate=num * 4, depth=50, seed=c.seed, workers=4)
     return r.json('@@')
 
@@ -220,7 +220,7 @@ _TAB = None
 def conc_table():
     global _TAB
     if _TAB is None:
-        cfg = tlc.cfg_text(constants={'Sym': {'a'}, 'MaxSym': 1, 'MaxDepth': 1, 'Free': False}, invariants=['Table'])
+        cfg = tlc.cfg_text(constants={'Sym': {'a'}, 'MaxSym': 1, 'MaxDepth': 1, 'Free': False, 'Mode': 'normal'}, invariants=['Table'])
         r = tlc.run('Gen', cfg, workers=1)
         tlc.check_ok(r, 'catalogue table')
         _TAB = r.json('@T')[0]
